@@ -167,6 +167,8 @@ def gen_helper_case(r):
     nb = len(lo)
     if kind == "mismatch" and n == 0:
         n = 1       # the model's list-of-rows array cannot carry a column count without a row
+    if kind == "mismatch" and d == 1:
+        d = 2       # a 1-column array is BROADCAST against several bounds to a wider array: not a clipping configuration
     rows = []
     for _ in range(n):
         row = []
@@ -175,8 +177,47 @@ def gen_helper_case(r):
             row.append(gen_entry(r, lo[jj if nb > 1 else 0], hi[jj if nb > 1 else 0]))
         rows.append(row)
     one_d = kind in ("scalar", "equal", "zerowidth", "nearly") and r.chance(0.2)
-    return {"op": "bounds", "kind": kind, "lower": lo, "upper": hi, "rows": rows, "d": d, "one_d": one_d,
+    case = {"op": "bounds", "kind": kind, "lower": lo, "upper": hi, "rows": rows, "d": d, "one_d": one_d,
             "scalar_args": kind == "scalar" and r.chance(0.5)}
+    if r.chance(0.3):
+        typed_rows(r, case)
+    return case
+
+
+DTYPES = ["int64", "int32", "bool", "float32", "int8"]
+
+
+def typed_rows(r, case):
+    """narrower-than-float64 data (the callers' arrays are not cast by the tools / GaussianNB / KMeans): integer-valued
+    entries around bounds that are mostly NOT representable in the data type"""
+    dt = r.choice(DTYPES)
+    lo, hi = case["lower"], case["upper"]
+    fin = [b for b in lo + hi if math.isfinite(b)]
+    c = int(round(sum(fin) / len(fin))) if fin else 0
+    c = max(-100, min(100, c))
+    rows = []
+    for row in case["rows"]:
+        new = []
+        for _ in row:
+            if dt == "bool":
+                new.append(float(r.randint(0, 1)))
+            elif dt == "float32":
+                new.append(float(np.float32(r.choice([c + r.uniform(-4, 4), r.uniform(-4, 4), c + r.randint(-3, 3)]))))
+            else:
+                new.append(float(max(-120, min(120, r.choice([c + r.randint(-4, 4), r.randint(-3, 3), c])))))
+        rows.append(new)
+    case["rows"] = rows
+    case["dtype"] = dt
+    if case["kind"] not in ("invalid", "mismatch") and r.chance(0.7):
+        # fractional bounds close to the data: the clipped values are not representable in an integer type
+        base = c + r.choice([0.5, -0.5, 0.25, -1.75, 0.1])
+        w = r.choice([2.0, 1.5, 0.7, 3.25])
+        n = len(lo)
+        if case["kind"] in ("scalar", "equal", "zerowidth"):
+            case["lower"], case["upper"] = [base] * n, [base + (0.0 if case["kind"] == "zerowidth" else w)] * n
+        else:
+            case["lower"] = [base + r.choice([0.0, 0.25, -0.5, 1e-9]) for _ in range(n)]
+            case["upper"] = [base + w + r.choice([0.0, 0.25, 0.5, -1e-9]) for _ in range(n)]
 
 
 def gen_norm_case(r):
@@ -203,7 +244,31 @@ def gen_norm_case(r):
         rows.append([x * s for x in v])
     if r.chance(0.1) and n and d >= 2:
         rows[0] = [abs(c)] + [0.0] * (d - 1)     # exactly on the sphere
+    if c > 0:
+        for i in range(n):
+            if r.chance(0.35):
+                rows[i] = shell_row(r, d, c)
     return {"op": "norm", "c": c, "rows": rows, "d": d}
+
+
+SHELL = [1e-15, 3e-15, 1e-14, 1e-13, 3e-12, 1e-11, 1e-10, 1e-9, 1e-8, 1e-7, 1e-6, 5e-6, 9.9e-6, 2e-5, 1e-4]
+
+
+def shell_row(r, d, c):
+    """a row whose norm is c(1 +- delta): a few ulps up to 1e-4 relative above (and below) the clip value"""
+    v = np.array([r.normal() for _ in range(d)])
+    if r.chance(0.3):
+        v = np.zeros(d)
+        v[r.randint(0, d - 1)] = r.choice([-1.0, 1.0])
+    nv = float(np.sqrt(np.add.reduce(v * v))) or 1.0
+    m = r.u01()
+    if m < 0.2:
+        f = 1.0 + r.randint(1, 8) * 2.0 ** -52
+    elif m < 0.8:
+        f = 1.0 + r.choice(SHELL) * r.uniform(0.5, 1.0)
+    else:
+        f = 1.0 - r.choice(SHELL) * r.uniform(0.5, 1.0)
+    return (v * (c * f / nv)).tolist()
 
 
 # --------------------------------------------------------------------------------- helper checks (K + S1)
@@ -218,10 +283,11 @@ def run_helper_impl(case):
     if case["op"] == "bounds":
         rows = case["rows"]
         d = case["d"]
-        A = np.array(rows, dtype=float).reshape(len(rows), d)
+        A = np.array(rows, dtype=float).reshape(len(rows), d).astype(case.get("dtype", "float64"))
         if case.get("one_d"):
             A = A.ravel()
-        A0 = A.copy()
+        A0 = A.astype(float)          # exact: the typed entries are small integers / float32 values
+        A = A.copy()
         try:
             with warnings.catch_warnings():
                 warnings.simplefilter("ignore")
@@ -255,6 +321,13 @@ def driver_line(case):
 
 def direct_helper(case, A0, A, out, exc):
     """the property itself on the helper; returns (signature, what) or None"""
+    v = _direct_helper(case, A0, A, out, exc)
+    if v and case.get("dtype") and v[0].split(":")[-1] in ("out-of-bounds", "not-nearest", "not-identity", "not-idempotent"):
+        return ("C10:clip_to_bounds:dtype", f"{case['dtype']} array: " + v[1])
+    return v
+
+
+def _direct_helper(case, A0, A, out, exc):
     if case["op"] == "bounds":
         lo, hi = case["lower"], case["upper"]
         valid = len(lo) == len(hi) and all(l <= u for l, u in zip(lo, hi))
@@ -263,17 +336,15 @@ def direct_helper(case, A0, A, out, exc):
             if exc is None:
                 return ("C10:clip_to_bounds:accepts-invalid-bounds", f"bounds {lo},{hi} accepted")
             return None
+        if per_col and (case.get("one_d") or case["d"] != len(lo)):
+            return None       # per-feature bounds that do not match the array: refused (or broadcast), not a clipping configuration
         if exc is not None:
-            ok_refusal = (per_col and (case.get("one_d") or case["d"] > len(lo)))
-            if ok_refusal:
-                return None
-            if case["kind"] == "mismatch" and not per_col:
-                return None
             return ("C10:clip_to_bounds:refuses-valid", f"{type(exc).__name__}: {exc} for bounds {lo},{hi}")
         if not _eqv(A, A0):
             return ("C10:clip_to_bounds:modifies-input", "the caller's array was modified")
         if out.shape != A0.shape:
             return ("C10:clip_to_bounds:shape", f"shape {out.shape} != {A0.shape}")
+        out = np.asarray(out).astype(float)
         if A0.ndim == 2 and per_col:
             L = np.array(lo[:A0.shape[1]], dtype=float)
             U = np.array(hi[:A0.shape[1]], dtype=float)
@@ -362,6 +433,17 @@ FIXED_HELPER = [
     {"op": "bounds", "kind": "nearly", "lower": [1e6, 1e6 + 1e-3], "upper": [2e6, 2e6], "rows": [[0.0, 0.0]], "d": 2, "one_d": False},
     {"op": "bounds", "kind": "scalar", "lower": [0.0], "upper": [1.0], "rows": [[-1.0, 0.5, 2.0]], "d": 3, "one_d": False, "scalar_args": True},
     {"op": "norm", "c": 1.0, "rows": [[3.0, 4.0], [0.3, 0.4], [0.0, 0.0]], "d": 2},
+    # rows a hair above the norm must be rescaled too (an isclose test on the norms would leave them)
+    {"op": "norm", "c": 2.0, "rows": [[2.000001, 0.0], [0.0, 2.0 * (1 + 1e-9)], [1.2 * (1 + 5e-6), 1.6 * (1 + 5e-6)]], "d": 2},
+    # integer / float32 data with bounds that the data type cannot represent: the result must still be the nearest point
+    {"op": "bounds", "kind": "scalar", "lower": [0.5], "upper": [2.5], "rows": [[0.0, 1.0], [2.0, 3.0], [10.0, -7.0]], "d": 2,
+     "one_d": False, "scalar_args": True, "dtype": "int64"},
+    {"op": "bounds", "kind": "perfeature", "lower": [0.5, 0.25], "upper": [2.5, 2.75], "rows": [[0.0, 1.0], [2.0, 3.0], [10.0, -7.0]],
+     "d": 2, "one_d": False, "dtype": "int64"},
+    {"op": "bounds", "kind": "perfeature", "lower": [0.1, 0.25], "upper": [2.5, 2.7], "rows": [[0.0, 1.0], [2.0, 3.0], [10.0, -7.0]],
+     "d": 2, "one_d": False, "dtype": "float32"},
+    {"op": "bounds", "kind": "scalar", "lower": [0.5], "upper": [0.75], "rows": [[1.0, 0.0, 1.0]], "d": 3, "one_d": True,
+     "scalar_args": True, "dtype": "bool"},
 ]
 
 
@@ -483,47 +565,93 @@ def _tree_state(t):
             np.asarray(nodes["left_child"], dtype=float), np.asarray(st["values"], dtype=float).ravel()]
 
 
-def run_model(name, X, y, case):
+def make_model(name, case):
     M = dp.models
     eps, seed = case["eps"], case["seed"]
     lo = np.array(case["lower"]) if isinstance(case.get("lower"), list) else case.get("lower")
     hi = np.array(case["upper"]) if isinstance(case.get("upper"), list) else case.get("upper")
     b = (lo, hi)
-    probe = np.array(case["probe"], dtype=float) if "probe" in case else None
+    seq = case.get("seq")
     if name == "GaussianNB":
-        m = M.GaussianNB(epsilon=eps, bounds=b, random_state=seed, accountant=_acc()).fit(X, y)
-        return [m.theta_, m.var_, m.class_prior_, m.class_count_, m.predict_proba(probe)]
+        return M.GaussianNB(epsilon=eps, bounds=b, random_state=seed, accountant=_acc())
     if name == "KMeans":
-        m = M.KMeans(n_clusters=case["k"], epsilon=eps, bounds=b, random_state=seed, accountant=_acc()).fit(X)
-        return [m.cluster_centers_, np.asarray(m.labels_, dtype=float), np.asarray(m.inertia_, dtype=float)]
+        return M.KMeans(n_clusters=case["k"], epsilon=eps, bounds=b, random_state=seed, accountant=_acc())
     if name == "StandardScaler":
-        m = M.StandardScaler(epsilon=eps, bounds=b, random_state=seed, accountant=_acc()).fit(X)
-        return [m.mean_, m.var_, m.scale_, np.asarray(m.n_samples_seen_, dtype=float)]
+        return M.StandardScaler(epsilon=eps, bounds=b, random_state=seed, accountant=_acc())
     if name.startswith("LinearRegression"):
         ylo = np.array(case["ylower"]) if isinstance(case["ylower"], list) else case["ylower"]
         yhi = np.array(case["yupper"]) if isinstance(case["yupper"], list) else case["yupper"]
-        m = M.LinearRegression(epsilon=eps, bounds_X=b, bounds_y=(ylo, yhi), fit_intercept="nointercept" not in name,
-                               random_state=seed, accountant=_acc()).fit(X, y)
+        return M.LinearRegression(epsilon=eps, bounds_X=b, bounds_y=(ylo, yhi), fit_intercept="nointercept" not in name,
+                                  random_state=seed, accountant=_acc())
+    if name == "RandomForestClassifier":
+        return M.RandomForestClassifier(n_estimators=2 if seq == "warm_start" else 3, epsilon=eps, bounds=b, classes=case["classes"],
+                                        max_depth=3, random_state=seed, warm_start=seq == "warm_start", accountant=_acc())
+    if name == "DecisionTreeClassifier":
+        return M.DecisionTreeClassifier(max_depth=3, epsilon=eps, bounds=b, classes=case["classes"], random_state=seed,
+                                        accountant=_acc())
+    if name == "PCA":
+        return M.PCA(n_components=case["k"], epsilon=eps, data_norm=case["c"], centered=True, random_state=seed, accountant=_acc())
+    if name.startswith("LogisticRegression"):
+        return M.LogisticRegression(epsilon=eps, data_norm=case["c"], random_state=seed, max_iter=60, warm_start=seq == "warm_start",
+                                    accountant=_acc())
+    raise KeyError(name)
+
+
+UNSUPERVISED = ("KMeans", "StandardScaler", "PCA")
+
+
+def model_outputs(name, m, case):
+    probe = np.array(case["probe"], dtype=float) if "probe" in case else None
+    if name == "GaussianNB":
+        return [m.theta_, m.var_, m.class_prior_, m.class_count_, m.predict_proba(probe)]
+    if name == "KMeans":
+        return [m.cluster_centers_, np.asarray(m.labels_, dtype=float), np.asarray(m.inertia_, dtype=float)]
+    if name == "StandardScaler":
+        return [m.mean_, m.var_, m.scale_, np.asarray(m.n_samples_seen_, dtype=float)]
+    if name.startswith("LinearRegression"):
         return [np.asarray(m.coef_, dtype=float), np.asarray(m.intercept_, dtype=float)]
     if name == "RandomForestClassifier":
-        m = M.RandomForestClassifier(n_estimators=3, epsilon=eps, bounds=b, classes=case["classes"], max_depth=3,
-                                     random_state=seed, accountant=_acc()).fit(X, y)
         out = [m.predict_proba(probe)]
         for t in m.estimators_:
             out += _tree_state(t)
         return out
     if name == "DecisionTreeClassifier":
-        m = M.DecisionTreeClassifier(max_depth=3, epsilon=eps, bounds=b, classes=case["classes"], random_state=seed,
-                                     accountant=_acc()).fit(X, y)
         return [m.predict_proba(probe)] + _tree_state(m)
     if name == "PCA":
-        m = M.PCA(n_components=case["k"], epsilon=eps, data_norm=case["c"], centered=True, random_state=seed,
-                  accountant=_acc()).fit(X)
         return [m.components_, m.explained_variance_, m.singular_values_, m.mean_]
     if name.startswith("LogisticRegression"):
-        m = M.LogisticRegression(epsilon=eps, data_norm=case["c"], random_state=seed, max_iter=60, accountant=_acc()).fit(X, y)
         return [m.coef_, m.intercept_]
     raise KeyError(name)
+
+
+def run_model(name, X, y, case):
+    """fit on (X, y) - or, for a sequence case, first on the fixed batch A and then partial_fit / refit / warm-start on (X, y) -
+    and return the fitted attributes"""
+    m = make_model(name, case)
+    seq = case.get("seq")
+
+    def step(how, Xs, ys):
+        if how == "partial_fit":
+            if name == "GaussianNB":
+                m.partial_fit(Xs, ys, classes=case["classes"])
+            else:
+                m.partial_fit(Xs)
+        elif name in UNSUPERVISED:
+            m.fit(Xs)
+        else:
+            m.fit(Xs, ys)
+    if not seq:
+        step("fit", X, y)
+        return model_outputs(name, m, case)
+    A = np.array(unjson(case["A"]), dtype=float)
+    yA = np.array(unjson(case["yA"])) if case.get("yA") is not None else None
+    first, second = {"fit+partial_fit": ("fit", "partial_fit"), "partial_fit+partial_fit": ("partial_fit", "partial_fit"),
+                     "refit": ("fit", "fit"), "warm_start": ("fit", "fit")}[seq]
+    step(first, A, yA)
+    if seq == "warm_start" and name == "RandomForestClassifier":
+        m.set_params(n_estimators=4)
+    step(second, X, y)
+    return model_outputs(name, m, case)
 
 
 def _same(outs1, outs2):
@@ -543,16 +671,38 @@ def _run_pair(fn, D, Dc, *extra):
         try:
             with warnings.catch_warnings():
                 warnings.simplefilter("ignore")
-                res.append(("ok", fn(np.ascontiguousarray(data.copy()), *extra)))
+                res.append(("ok", fn(data if isinstance(data, list) else np.ascontiguousarray(data.copy()), *extra)))
         except Exception as e:  # noqa
             res.append(("exc", type(e).__name__ + ": " + str(e)[:160]))
     return res
 
 
+def typed(D, dt):
+    """the caller's array in its own data type (values are exactly representable there); 'pylist' = list of Python ints"""
+    if not dt:
+        return np.ascontiguousarray(D.copy())
+    if dt == "pylist":
+        return np.asarray(D).astype(np.int64).tolist()
+    return np.ascontiguousarray(D.astype(dt))
+
+
 def e2e_case_result(case):
     """-> (trivial?, violation (signature, what) or None)"""
+    trivial, v = _e2e_case_result(case)
+    if v and case.get("dtype") and case["family"] == "tool" and (case.get("axis") is not None or case.get("keepdims")):
+        # the per-cell wrapper of the tools allocates its output: a result truncated to the input data type
+        return trivial, ("C10:tools:axis-output-dtype", f"[data type {case['dtype']}, axis={case.get('axis')}, keepdims={case.get('keepdims')}] " + v[1])
+    if v and (case.get("dtype") or case.get("seq")):
+        v = (v[0] + (":dtype" if case.get("dtype") else "") + (":" + case["seq"] if case.get("seq") else ""),
+             (f"[data type {case['dtype']}] " if case.get("dtype") else "") +
+             (f"[sequence {case['seq']}: first batch A in-domain, second batch D] " if case.get("seq") else "") + v[1])
+    return trivial, v
+
+
+def _e2e_case_result(case):
     name = case["name"]
     D = np.array(unjson(case["D"]), dtype=float)
+    dt = case.get("dtype")
     if case["family"] == "tool":
         if name.startswith("histogram"):
             lo = np.broadcast_to(np.asarray(case["lower"], dtype=float), (D.shape[1],) if D.ndim == 2 else ())
@@ -564,7 +714,7 @@ def e2e_case_result(case):
         else:
             Dc = ref_clip(D, case["lower"], case["upper"]) if D.ndim == 2 else \
                 np.minimum(np.maximum(D, case["lower"]), case["upper"])
-        (k1, o1), (k2, o2) = _run_pair(lambda X: run_tool(name, X, case), D, Dc)
+        (k1, o1), (k2, o2) = _run_pair(lambda X: run_tool(name, X, case), typed(D, dt), Dc)
     else:
         y = np.array(unjson(case["y"])) if case.get("y") is not None else None
         if name == "PCA" or name.startswith("LogisticRegression"):
@@ -577,7 +727,7 @@ def e2e_case_result(case):
                 yc = ref_clip(y, case["ylower"], case["yupper"]) if y.ndim == 2 else \
                     np.minimum(np.maximum(y, case["ylower"]), case["yupper"])
         res = []
-        for data, yy in ((D, y), (Dc, yc)):
+        for data, yy in ((typed(D, dt), y), (Dc, yc)):
             try:
                 with warnings.catch_warnings():
                     warnings.simplefilter("ignore")
@@ -627,7 +777,10 @@ def fixed_point_rows(r, n, d, c, out_p):
         v = np.array([r.normal() for _ in range(d)])
         nv = float(np.linalg.norm(v)) or 1.0
         if r.chance(out_p):
-            x = v * (c * r.loguniform(1.001, 1e3) / nv)
+            if r.chance(0.4):
+                x = v * (c * (1.0 + r.choice(SHELL) * r.uniform(0.5, 1.0)) / nv)     # a hair above the norm
+            else:
+                x = v * (c * r.loguniform(1.001, 1e3) / nv)
             img = ref_norm_image(x[None, :], c)
             if not _eqv(ref_norm_image(img, c), img):
                 continue
@@ -710,6 +863,81 @@ def gen_e2e_case(r, name, family):
     return case
 
 
+TYPED_TOOLS = ["mean", "var", "std", "sum", "nanmean", "nanvar", "nanstd", "nansum", "quantile", "median", "percentile"]
+TYPED_MODELS = {"GaussianNB": ["int64", "int32", "float32"], "KMeans": ["float32"], "StandardScaler": ["float32"]}
+SEQ_MODELS = {"GaussianNB": ["fit+partial_fit", "partial_fit+partial_fit"], "StandardScaler": ["fit+partial_fit", "partial_fit+partial_fit"],
+              "RandomForestClassifier": ["warm_start"], "KMeans": ["refit"], "LinearRegression": ["refit"],
+              "LinearRegression-nointercept": ["refit"], "LinearRegression-multi": ["refit"], "DecisionTreeClassifier": ["refit"],
+              "PCA": ["refit"], "LogisticRegression": ["refit", "warm_start"]}
+
+
+def add_dtype(r, case):
+    """turn a generated case into one whose data is integer / bool / float32 typed (as the caller would pass it) with bounds
+    that the data type cannot represent; the library must still clip to the declared (float) bounds"""
+    name = case["name"]
+    dt = r.choice(["int64", "int32", "bool", "pylist", "float32"]) if case["family"] == "tool" else r.choice(TYPED_MODELS[name])
+    D = np.array(case["D"], dtype=float)
+    c = 0 if dt == "bool" else r.randint(-3, 3)
+    per = isinstance(case["lower"], list)
+    n = len(case["lower"]) if per else 1
+    if dt == "bool":
+        los, his = [r.choice([0.25, 0.5, 0.1]) for _ in range(n)], [r.choice([0.75, 0.9, 0.6]) for _ in range(n)]
+    else:
+        los = [c + r.choice([0.5, 0.25, 0.1, -0.5]) for _ in range(n)]
+        his = [l + r.choice([2.0, 1.5, 2.6, 3.3]) for l in los]
+    if per and n > 1 and r.chance(0.4):
+        his = [his[0]] * n
+        los = [los[0]] * (n - 1) + [los[0] + 1e-9]        # nearly equal per-feature bounds
+    case["lower"], case["upper"] = (los, his) if per else (los[0], his[0])
+    if dt == "bool":
+        vals = (np.array([[r.randint(0, 1) for _ in range(D.size)]]).reshape(D.shape)).astype(float)
+    elif dt == "float32":
+        vals = np.array([float(np.float32(r.uniform(c - 4, c + 7))) for _ in range(D.size)]).reshape(D.shape)
+    else:
+        vals = np.array([float(r.randint(c - 4, c + 7)) for _ in range(D.size)]).reshape(D.shape)
+    case["D"] = vals.tolist()
+    case["dtype"] = dt
+    case["bkind"] = (case.get("bkind") or "") + "+" + dt
+    if "probe" in case:
+        case["probe"] = [[float(c + r.uniform(-2, 5)) for _ in row] for row in case["probe"]]
+    return case
+
+
+def add_seq(r, case):
+    """fit(A) then partial_fit / refit / warm-start on the case's data D: the later batch must be clipped like the first"""
+    name = case["name"]
+    case["seq"] = r.choice(SEQ_MODELS[name])
+    nA = r.randint(10, 30)
+    if name == "PCA" or name.startswith("LogisticRegression"):
+        d = len(case["D"][0])
+        case["A"] = fixed_point_rows(r, nA, d, case["c"], 0.1)
+        if name != "PCA":
+            ncl = 3 if "multiclass" in name else 2
+            yA = [i % ncl for i in range(nA)]
+            r.shuffle(yA)
+            case["yA"] = yA
+        return case
+    d = len(case["D"][0])
+    case["A"] = gen_data(r, nA, case["lower"], case["upper"], d, 0.1).tolist()
+    if "classes" in case:
+        yA = [i % 2 for i in range(nA)]
+        r.shuffle(yA)
+        case["yA"] = yA
+    if name.startswith("LinearRegression"):
+        t = len(case["y"][0]) if isinstance(case["y"][0], list) else 0
+        YA = gen_data(r, nA, case["ylower"], case["yupper"], t, 0.1)
+        case["yA"] = YA.tolist() if t else YA.ravel().tolist()
+    return case
+
+
+def _seq_rows(n, d, lo, hi, far):
+    rs = np.random.RandomState(42)
+    X = rs.uniform(lo, hi, size=(n, d))
+    for i, row in far:
+        X[i] = row
+    return X.tolist()
+
+
 FIXED_E2E = [
     # regression witness of fix 97b16d1: LinearRegression(fit_intercept=False) with one row far outside the bounds
     {"family": "model", "name": "LinearRegression-nointercept", "eps": 1.0, "seed": 7, "lower": 0.0, "upper": 1.0,
@@ -717,6 +945,34 @@ FIXED_E2E = [
     # regression witness of fix bfc57c7 at a call site: per-feature bounds that np.allclose would have merged
     {"family": "model", "name": "StandardScaler", "eps": 1.0, "seed": 3, "lower": [0.0, 1e-6], "upper": [1.0, 1.0 - 1e-6],
      "D": [[0.0, 0.0], [1.0, 1.0], [0.5, 0.5], [0.2, 1e-7], [2.0, -1.0], [0.9, 0.999999999]], "probe": [[0.0, 0.0]]},
+]
+
+
+FIXED_E2E += [
+    # integer data, fractional scalar bounds, through a tool and through GaussianNB (the tools do not cast the caller's array)
+    {"family": "tool", "name": "mean", "eps": 1.0, "seed": 11, "lower": 0.5, "upper": 2.5, "axis": None, "keepdims": False,
+     "D": [[0, 1], [2, 3], [10, -7]], "dtype": "int64", "bkind": "scalar+int64"},
+    {"family": "tool", "name": "sum", "eps": 1.0, "seed": 12, "lower": 0.25, "upper": 0.75, "axis": None, "keepdims": False,
+     "D": [[1, 0], [1, 1], [0, 1]], "dtype": "bool", "bkind": "scalar+bool"},
+    {"family": "model", "name": "GaussianNB", "eps": 1.0, "seed": 1, "lower": [0.5, 0.25], "upper": [2.5, 2.75], "dtype": "int64",
+     "D": [[0, 1], [2, 3], [10, -7], [1, 1], [2, 2], [0, 3]] * 3, "y": [0, 1] * 9, "classes": [0, 1], "probe": [[1.0, 1.0]],
+     "bkind": "perfeature+int64"},
+    {"family": "model", "name": "GaussianNB", "eps": 1.0, "seed": 1, "lower": 0.5, "upper": 2.5, "dtype": "int64",
+     "D": [[0, 1], [2, 3], [10, -7], [1, 1], [2, 2], [0, 3]] * 3, "y": [0, 1] * 9, "classes": [0, 1], "probe": [[1.0, 1.0]],
+     "bkind": "scalar+int64"},
+    # rows a hair above the data norm (a tolerance test on the norms would leave them unscaled)
+    {"family": "model", "name": "PCA", "eps": 1.0, "seed": 2, "c": 2.0, "k": 2,
+     "D": [[2.0 * (1 + 5e-6), 0.0, 0.0], [0.0, 2.0 * (1 + 1e-6), 0.0], [0.0, 0.0, 2.0 * (1 + 9e-6)], [1.0, 0.5, 0.2], [0.3, -1.0, 0.4],
+           [-0.5, 0.1, 1.5], [0.2, 0.2, -0.7], [1.1, -0.3, 0.0], [-0.9, 0.8, 0.3], [0.4, 0.6, -1.2]]},
+    # later batches must be clipped like the first one
+    {"family": "model", "name": "GaussianNB", "eps": 2.0, "seed": 0, "lower": [0.0, -1.0], "upper": [1.0, 1.0], "seq": "fit+partial_fit",
+     "A": _seq_rows(30, 2, [0.0, -1.0], [1.0, 1.0], []), "yA": [i % 2 for i in range(30)],
+     "D": _seq_rows(30, 2, [0.0, -1.0], [1.0, 1.0], [(0, [250.0, 0.3]), (1, [0.5, -80.0]), (7, [-3.0, 40.0])]),
+     "y": [i % 2 for i in range(30)], "classes": [0, 1], "probe": [[0.5, 0.0]], "bkind": "perfeature"},
+    {"family": "model", "name": "GaussianNB", "eps": 2.0, "seed": 0, "lower": [0.0, -1.0], "upper": [1.0, 1.0], "seq": "partial_fit+partial_fit",
+     "A": _seq_rows(30, 2, [0.0, -1.0], [1.0, 1.0], []), "yA": [i % 2 for i in range(30)],
+     "D": _seq_rows(30, 2, [0.0, -1.0], [1.0, 1.0], [(0, [250.0, 0.3]), (1, [0.5, -80.0]), (7, [-3.0, 40.0])]),
+     "y": [i % 2 for i in range(30)], "classes": [0, 1], "probe": [[0.5, 0.0]], "bkind": "perfeature"},
 ]
 
 
@@ -728,15 +984,24 @@ def check_e2e(ctx):
     for name in TOOLS:
         for _ in range(per_tool):
             cases.append(gen_e2e_case(r, name, "tool"))
+        if name in TYPED_TOOLS:
+            for _ in range(max(2, per_tool // 3)):
+                cases.append(add_dtype(r, gen_e2e_case(r, name, "tool")))
     for name in MODELS:
         for _ in range(per_model):
             cases.append(gen_e2e_case(r, name, "model"))
+        if name in TYPED_MODELS:
+            for _ in range(max(2, per_model // 2)):
+                cases.append(add_dtype(r, gen_e2e_case(r, name, "model")))
+        if name in SEQ_MODELS:
+            for _ in range(max(2, per_model // 2)):
+                cases.append(add_seq(r, gen_e2e_case(r, name, "model")))
     for i, case in enumerate(cases):
         trivial, v = e2e_case_result(case)
         if v:
             ctx.violation(v[0], v[1], {"kind": "e2e", "case": case})
-        ctx.case(None if trivial else (case["name"], case.get("bkind"), case.get("axis"), case["seed"]))
-        ctx.count("e2e:" + case["name"])
+        ctx.case(None if trivial else (case["name"], case.get("bkind"), case.get("axis"), case.get("seq"), case["seed"]))
+        ctx.count("e2e:" + case["name"] + ("+dtype" if case.get("dtype") else "") + ("+seq" if case.get("seq") else ""))
         if not trivial and v is None:
             ctx.trace_ok()
     ctx.sample({"e2e_case": {k: (v if k not in ("D", "y", "probe") else "...") for k, v in cases[10].items()}})
